@@ -37,6 +37,20 @@ func ulps(x float64, k int) float64 {
 	return x
 }
 
+func maxInt(a, b int) int {
+	if a > b {
+		return a
+	}
+	return b
+}
+
+func abs64(x int64) int64 {
+	if x < 0 {
+		return -x
+	}
+	return x
+}
+
 func genC10(r *Rng, e *Emitter, n int) {
 	emit := func(a, b, c geom.Coord) {
 		in := fmt.Sprintf("(%s %s %s)", sxCoord(a), sxCoord(b), sxCoord(c))
@@ -55,6 +69,88 @@ func genC10(r *Rng, e *Emitter, n int) {
 		emit(a, b, c)
 	}
 	e.tally("grid5x5-exhaustive")
+	// nearest-to-collinear integer triples (determinant +-1, +-2) at every size, translated so that
+	// the six ordinates have mixed signs or share one binade, and scaled by powers of two
+	for i := 0; i < n/4; i++ {
+		bits := 3 + r.Intn(50)
+		ux, uy, vx, vy := r.unimodular(bits)
+		k := int64(r.Intn(5) - 2) // c = b + v + k*u keeps the determinant
+		ox, oy := int64(0), int64(0)
+		switch r.Intn(4) {
+		case 0: // origin inside the triple's extent: mixed signs
+			ox, oy = -(ux + vx/2), -(uy + vy/2)
+		case 1: // far offset: all ordinates in one binade
+			ox, oy = int64(1)<<uint(bits+1), int64(1)<<uint(bits+1)
+		case 2:
+			ox, oy = -int64(r.Intn(1<<uint(minInt(bits, 30)))), int64(r.Intn(1<<uint(minInt(bits, 30))))
+		}
+		ax, ay := ox, oy
+		bx, by := ox+ux, oy+uy
+		cx, cy := bx+vx+k*ux, by+vy+k*uy
+		if r.chance(1, 2) { // determinant +-2: move c one more lattice step off the line
+			cx, cy = cx+vx, cy+vy
+		}
+		if r.chance(1, 3) {
+			// balanced: a and b = a+u on opposite sides of the origin, c next to the line on a's
+			// side, u sheared to a near-diagonal direction so that all six ordinates have similar
+			// magnitude (often one binade) with mixed signs: differences then carry into an extra
+			// bit while the determinant stays +-1
+			q0 := int64(8 + r.Intn(40))
+			wx, wy, zx, zy := q0, int64(1), int64(1), int64(0)
+			bb := bits
+			if r.chance(1, 2) {
+				bb = 50 + r.Intn(5) // ordinates that use all 53 bits
+			}
+			lim := int64(1) << uint(maxInt(bb-7, 4))
+			for {
+				q := int64(1 + r.Intn(2))
+				nx, ny := q*wx+zx, q*wy+zy
+				if nx >= lim {
+					break
+				}
+				wx, wy, zx, zy = nx, ny, wx, wy
+			}
+			// last step with a large quotient: the previous vector z is then a short lattice vector
+			// almost parallel to w (w x z = +-1)
+			ql := int64(8 + r.Intn(120))
+			wx, wy, zx, zy = ql*wx+zx, ql*wy+zy, wx, wy
+			// shear (x, y) -> (x, x + y), then random reflections
+			wy, zy = wx+wy, zx+zy
+			if r.chance(1, 2) {
+				wx, zx = -wx, -zx
+			}
+			if r.chance(1, 2) {
+				wy, zy = -wy, -zy
+			}
+			if r.chance(1, 2) {
+				wx, wy, zx, zy = wy, wx, zy, zx
+			}
+			ax, ay = -(wx / 2), -(wy / 2)
+			if r.chance(1, 2) {
+				ax, ay = ax-int64(r.Intn(1000)), ay+int64(r.Intn(1000))
+			}
+			bx, by = ax+wx, ay+wy
+			m := int64(1 + r.Intn(3))
+			if r.chance(1, 2) {
+				m = -m
+			}
+			cx, cy = ax+m*zx, ay+m*zy // next to a, determinant +-m
+			if r.chance(1, 4) {
+				cx, cy = bx+m*zx, by+m*zy // next to b
+			}
+		}
+		sc := math.Ldexp(1, r.Intn(41)-20)
+		if abs64(ax)|abs64(ay)|abs64(bx)|abs64(by)|abs64(cx)|abs64(cy) >= 1<<53 {
+			continue
+		}
+		a := geom.Coord{float64(ax) * sc, float64(ay) * sc}
+		b := geom.Coord{float64(bx) * sc, float64(by) * sc}
+		c := geom.Coord{float64(cx) * sc, float64(cy) * sc}
+		perms := [][3]geom.Coord{{a, b, c}, {b, c, a}, {c, a, b}, {b, a, c}, {a, c, b}, {c, b, a}}
+		p := perms[r.Intn(6)]
+		e.tally("mode=unimodular")
+		emit(p[0], p[1], p[2])
+	}
 	for i := 0; i < n; i++ {
 		scale := r.Intn(5)
 		extra := r.Intn(3) // extra ordinates beyond X,Y are arbitrary
